@@ -37,6 +37,7 @@ inductive OpQ where
   | op (o : Op)
   | reg (n : Name) (v : V)
   | rr (l : Nat)
+  | addts (l : Nat) (name : String) (ver : Nat) (members : List (String × Nat))
 
 /-- the `SetEntry` loop of `resolveResolvables` -/
 def rrLoop (tss : List (Option TypeSet)) (dps : List (Option Mods)) (s : Sys) (l : Nat) : List (Name × V) → Sys × Ans
@@ -46,7 +47,46 @@ def rrLoop (tss : List (Option TypeSet)) (dps : List (Option Mods)) (s : Sys) (l
     | (s1, .ok) => rrLoop tss dps s1 l r
     | (s1, a) => (s1, a)
 
+/-! ### `px.AddTypes(c, typeSet)`: a type set as a provider of names
+
+| Go                                                                  | Lean              |
+|---------------------------------------------------------------------|-------------------|
+| `px.AddTypes` for one resolved TypeSet: `l := c.DefiningLoader()`; `ResolveTypes(c, ts)`; then `l.SetEntry(NewTypedName(NsType, ts.Name()), entry(ts))` | `addTypeSet` |
+| `internal/context.go` `resolveTypeSet`: for each member, in declaration order, `tn := NewTypedName(NsType, t.Name())` (the QUALIFIED name `Set::Member`), `le := l.LoadEntry(c, tn)`; a member the loader already knows (`le` has a value — its own or an ancestor's, whatever that value is) is SKIPPED silently; otherwise `l.SetEntry(tn, entry(t))` | `addMembers` |
+| `typeSet.Equals`: name and versions only                             | `V.tset name ver` |
+
+So "a TypeSet bound at `A` answers `A::B`" because its members are bound, one by one and under their qualified names, in
+the loader the type set is added through — at that moment, and only where nothing resolved before.  A cached miss (nil
+value) does not count as known (the seeded change C12-s6 made it count).  Lines with `addts` have no type-set LEAF
+(`(ts …)` node); the loader addressed may sit below a dependency loader (its `LoadEntry` writes: `loadEntryD`).
+-/
+
+/-- the members of a type set as the loader will hold them: the alias `Set::Member = Integer[k,k]` -/
+def memberName (tsName m : String) : Name := ⟨runtimeAuthority, "type", tsName ++ "::" ++ m⟩
+def memberVal (tsName m : String) (k : Nat) : V := .al (tsName ++ "::" ++ m) k
+
+/-- `resolveTypeSet` -/
+def addMembers (dps : List (Option Mods)) (s : Sys) (l : Nat) (tsName : String) : List (String × Nat) → Sys × Ans
+  | [] => (s, .ok)
+  | (m, k) :: r =>
+    match loadEntryD dps s (chain s.ps l) (memberName tsName m) with
+    | (s1, .bad) => (s1, .reported "PCORE_INVALID_CHARACTERS_IN_NAME")
+    | (s1, .ok (some (some _))) => addMembers dps s1 l tsName r            -- already known to the loader
+    | (s1, .ok _) =>
+      match define s1 l (memberName tsName m) (memberVal tsName m k) with
+      | (s2, .ok) => addMembers dps s2 l tsName r
+      | (s2, a) => (s2, a)
+
+/-- `px.AddTypes(c, typeSet)` with `c.Loader()` = loader `l` -/
+def addTypeSet (dps : List (Option Mods)) (s : Sys) (l : Nat) (tsName : String) (ver : Nat) (members : List (String × Nat)) :
+    Sys × Ans :=
+  match addMembers dps s l tsName members with
+  | (s1, .ok) => define s1 l ⟨runtimeAuthority, "type", tsName⟩ (.tset tsName ver)
+  | r => r
+
 def stepQ (tss : List (Option TypeSet)) (dps : List (Option Mods)) (q : SysQ) : OpQ → SysQ × Ans
+  | .addts l name ver members =>
+    ({ q with sys := (addTypeSet dps q.sys l name ver members).1 }, (addTypeSet dps q.sys l name ver members).2)
   | .op o => ({ q with sys := (stepX tss dps q.sys o).1 }, (stepX tss dps q.sys o).2)
   | .reg n v => ({ q with queue := q.queue ++ [(n, v)] }, .ok)
   | .rr l => ({ sys := (rrLoop tss dps q.sys l q.queue).1, queue := [] }, (rrLoop tss dps q.sys l q.queue).2)
